@@ -126,6 +126,8 @@ def expected_ClientOffers : List String := [
   "call i.ctx.metrics.lock.Lock()",
   "call i.ctx.metrics.lock.Unlock()",
   "call sendClientResponse(resp, response)",
+  "call i.ctx.metrics.lock.Lock()",
+  "call i.ctx.metrics.lock.Unlock()",
   "case:",
   "recv time.After(time.Second * ClientTimeout)",
   "call time.After(time.Second * ClientTimeout)",
